@@ -28,10 +28,10 @@ for c in CHECKS:
     pid = c["id"]
     m["checks"].append({
         "property_id": pid,
-        "quick_cmd": f"bin/check {pid} quick",
-        "thorough_cmd": f"bin/check {pid} thorough",
+        "quick_cmd": f"/verif/bin/check {pid} quick",
+        "thorough_cmd": f"/verif/bin/check {pid} thorough",
         "evidence_file": f"/verif/evidence/{pid}.json",
-        "replay_cmd_template": "bin/replay {path}",
+        "replay_cmd_template": "/verif/bin/replay {path}",
         "engine": c["engine"],
         "level_claimed": {"category": c["level"], "text": c["text"], "design_ref": c.get("design_ref", f"DESIGN.md §4 {pid}")},
         "level_note": c["note"],
